@@ -245,3 +245,5 @@ package ipldbindcode
 //@ func readFirstSignature
 //@   mode int
 //@   modifies buf
+//@   # the FIRST signature: exactly one 64-byte read directly after the compact-u16 count (third-party decoder: content not modelled)
+//@   ensures result1 == nil ==> called(decoder.ReadCompactU16) == 1 && called(decoder.Read) == 1
